@@ -15,7 +15,7 @@ RULE = ('histories of <= 12 operations (register string/partial/precompiled/file
 EXHAUSTIVE = {'quick': False, 'thorough': True}
 NAMES = ['a', 'b', 'c']
 FILES = ['f1', 'f2', 'f3']
-VALID = ['A1', 'B2 {{v}}', '  {{> b}}\n', 'C3{{#if v}}y{{/if}}']
+VALID = ['A1', 'B2 {{v}}', '  {{> b}}\n', 'C3{{#if v}}y{{/if}}', 'B2 {{v}}\nL2\n', 'A1\n  {{> b}}\nZ']
 INVALID = ['{{#if}', '{{/x}}']
 DATA = {'v': 'V'}
 
@@ -93,6 +93,11 @@ def gen_cases(rng, tier, scale):
         [('pi', 1), ('regs', 'b', 'B2 {{v}}'), ('regs', 'a', '  {{> b}}\n'), ('pi', 0), ('regs', 'c', '  {{> b}}\n'), ('clone',), ('sel', 1), ('pi', 1)],
         [('dev', 1), ('fw', 'f1', 'A1'), ('regf', 'a', 'f1'), ('regs', 'a', 'B2 {{v}}'), ('fw', 'f1', 'C3{{#if v}}y{{/if}}'), ('dev', 0), ('dev', 1)],
         [('dev', 1), ('fw', 'f3', '{{#if}'), ('regf', 'a', 'f3'), ('fw', 'f3', 'A1'), ('regf', 'a', 'f3'), ('fw', 'f3', '{{#if}'), ('dev', 0)],
+        # a file template with an indented include of a multi-line partial: the prevent_indent setting in force at
+        # registration (and at every dev-mode reload) decides its rendering
+        [('pi', 1), ('dev', 1), ('regs', 'b', 'B2 {{v}}\nL2\n'), ('fw', 'f1', 'A1\n  {{> b}}\nZ'), ('regf', 'a', 'f1'), ('fw', 'f1', 'A1\n  {{> b}}\nZ2')],
+        [('dev', 1), ('regs', 'b', 'B2 {{v}}\nL2\n'), ('fw', 'f1', 'A1\n  {{> b}}\nZ'), ('regf', 'a', 'f1'), ('pi', 1), ('fw', 'f2', 'A1\n  {{> b}}\nZ'), ('regf', 'c', 'f2'), ('dev', 0)],
+        [('pi', 1), ('regs', 'b', 'B2 {{v}}\nL2\n'), ('fw', 'f1', 'A1\n  {{> b}}\nZ'), ('regf', 'a', 'f1'), ('dev', 1), ('regf', 'c', 'f1'), ('clone',), ('sel', 1), ('pi', 0), ('regf', 'a', 'f1')],
     ]
     m = (120 if tier == 'quick' else 2000) * scale
     for k in range(m):
